@@ -501,3 +501,48 @@ func fieldInits(u *core.Unit, field string) []Assign {
 	})
 	return out
 }
+
+// helperSelectsConst: the expression e (a local defined once, or the call itself) is the result of a novel private helper
+// of the same package that returns onTrue exactly on the edge where guard holds and onFalse otherwise — the extracted
+// form of `v := onFalse; if guard { v = onTrue }`.
+func helperSelectsConst(c *core.Ctx, u *core.Unit, e ast.Expr, guard core.Guard, onTrue, onFalse int64) bool {
+	d := ast.Unparen(e)
+	if _, isID := d.(*ast.Ident); isID {
+		dd, ok := u.SingleDef(d)
+		if !ok {
+			return false
+		}
+		d = ast.Unparen(dd)
+	}
+	ce, isC := d.(*ast.CallExpr)
+	if !isC {
+		return false
+	}
+	f, _ := typeutil.Callee(u.Info(), ce).(*types.Func)
+	if f == nil || !core.IsNovel(f) {
+		return false
+	}
+	h := c.P.UnitOf(f)
+	if h == nil || h.Pkg != u.Pkg {
+		return false
+	}
+	c.Touch(h)
+	hg := h.Graph()
+	nT, nF, good := 0, 0, true
+	for _, r := range returnsIn(h) {
+		if len(r.Stmt.Results) != 1 {
+			return false
+		}
+		switch v, isK := core.ConstInt(h.Info(), r.Stmt.Results[0]); {
+		case isK && v == onTrue:
+			nT++
+			good = good && hg.GuardedBy(r.Loc, guard)
+		case isK && v == onFalse:
+			nF++
+			good = good && !hg.GuardedBy(r.Loc, guard)
+		default:
+			return false
+		}
+	}
+	return good && nT == 1 && nF == 1
+}
